@@ -13,8 +13,11 @@ def main():
     for t in targets:
         sel.extend([k for k in REGISTRY if t in k])
     for t in sel:
+        if REGISTRY[t].assumed:
+            print(f"== {t}: ASSUMED (not verified): {REGISTRY[t].assumed}")
+            continue
         r = verify_contract(repo, t)
-        print(f"== {t}: {r.status} cases={r.cases} paths={r.paths} obligations={len(r.obligations)} solver={r.solver_s:.2f}s wall={r.wall_s:.2f}s {r.reason}")
+        print(f"== {t}: {r.status} cases={r.cases} paths={r.paths} obligations={len(r.obligations)} solver={r.solver_s:.2f}s wall={r.wall_s:.2f}s cover={r.body_covered}/{r.body_statements} {('uncovered lines ' + str(r.uncovered_lines)) if r.uncovered_lines else ''} {r.reason}")
         for oid, rec in sorted(r.obligations.items()):
             print(f"   {rec['status']:8s} {oid.split('/',1)[1]:30s} q={rec['queries']} {rec['time']:.2f}s  {rec['note'][:90]}")
         seen = {}
